@@ -229,3 +229,207 @@ Proof.
   destruct (kids_of_sim _ _ _ _ Hobj _ Hr2) as [Ek Okids]. rewrite Ek, Hlen.
   apply (iter_sim _ _ _ _ Hobj (length (d_objects d)) (kids_of (d_objects d) (id0, gen0)) []); [exact Okids | constructor].
 Qed.
+
+(* ================= the same for a renaming that writes dangling references as null =================
+   (dense pass since the repair of C10/dangling-in-range).  A reference that named no object made
+   dereference fail with ObjectNotFound; afterwards the value is the null object, which every query
+   used by page_iter treats like the failure: not a dictionary, not an array. *)
+Lemma rename_o_nonref a o : is_ref o = false -> is_ref (rename_o a o) = false.
+Proof. destruct o; cbn; intro H; try reflexivity; discriminate. Qed.
+
+Lemma dict_get_rename_o a d k : dict_get (rename_dict_o a d) k = option_map (rename_o a) (dict_get d k).
+Proof.
+  unfold rename_dict_o. induction d as [|[k' v] d IH]; cbn [map dict_get fst snd]; [reflexivity|].
+  destruct (bytes_eqb k' k); [reflexivity | exact IH].
+Qed.
+
+Lemma dict_has_rename_o a d k : dict_has (rename_dict_o a d) k = dict_has d k.
+Proof. unfold dict_has. rewrite dict_get_rename_o. destruct (dict_get d k); reflexivity. Qed.
+
+Lemma get_type_rename_o a d : get_type (rename_dict_o a d) = get_type d.
+Proof.
+  unfold get_type. rewrite dict_get_rename_o, dict_has_rename_o.
+  destruct (dict_get d K_Type) as [o|]; [|reflexivity]. destruct o; try reflexivity.
+  cbn [option_map rename_o]. destruct (a (id, gen)); reflexivity.
+Qed.
+
+Lemma node_type_dangling m id : lookup m id = None -> node_type m id = NOther.
+Proof. intro H. unfold node_type, get_dictionary, get_object. rewrite H. reflexivity. Qed.
+
+Lemma kids_of_dangling m id : lookup m id = None -> kids_of m id = [].
+Proof. intro H. unfold kids_of, get_dictionary, get_object. rewrite H. reflexivity. Qed.
+
+Lemma iter_nil limit m : iter limit m [] [] = [].
+Proof. destruct limit; reflexivity. Qed.
+
+Section SimO.
+  Variable tr : dict.
+  Variables m m' : objmap.
+  Variable rho : oid -> oid.
+  Let a := live m rho.
+  Hypothesis Hobj : forall id, reach tr m id -> has_obj m id ->
+    lookup m' (rho id) = option_map (rename_o a) (lookup m id).
+
+  Notation okr := (okr tr m).
+
+  (* the result of a query before (r) and after (r'): the renamed value; a failure stays a failure or becomes null *)
+  Definition qres (r r' : option obj) : Prop :=
+    match r with Some o => r' = Some (rename_o a o) | None => r' = None \/ r' = Some ONull end.
+
+  Lemma deref_sim_o : forall fuel last o, okr o ->
+    match deref_aux m fuel last o with
+    | Some (l, o') => deref_aux m' fuel (option_map rho last) (rename_o a o) = Some (option_map rho l, rename_o a o') /\
+                      okr o' /\ is_ref o' = false
+    | None => qres None (option_map snd (deref_aux m' fuel (option_map rho last) (rename_o a o)))
+    end.
+  Proof.
+    induction fuel as [|fuel IH]; intros last o Hok.
+    - destruct (is_ref o) eqn:Er.
+      + destruct o; try discriminate. rewrite deref_aux_ref.
+        destruct (lookup m (id, gen)) as [o1|] eqn:El.
+        * assert (Ea : rename_o a (ORef id gen) = ORef (fst (rho (id, gen))) (snd (rho (id, gen))))
+            by (cbn [rename_o]; unfold a, live; rewrite El; reflexivity).
+          rewrite Ea, deref_aux_ref, <- surjective_pairing.
+          rewrite Hobj by (try (apply Hok; left; reflexivity); eapply lookup_has; eauto). rewrite El. cbn. left; reflexivity.
+        * assert (Ea : rename_o a (ORef id gen) = ONull) by (cbn [rename_o]; unfold a, live; rewrite El; reflexivity).
+          rewrite Ea, deref_aux_nonref by reflexivity. cbn. right; reflexivity.
+      + rewrite (deref_aux_nonref m 0 last o Er), (deref_aux_nonref m' 0) by (apply rename_o_nonref; exact Er). auto.
+    - destruct (is_ref o) eqn:Er.
+      + destruct o; try discriminate. rewrite deref_aux_ref.
+        destruct (lookup m (id, gen)) as [o1|] eqn:El.
+        * assert (Ea : rename_o a (ORef id gen) = ORef (fst (rho (id, gen))) (snd (rho (id, gen))))
+            by (cbn [rename_o]; unfold a, live; rewrite El; reflexivity).
+          rewrite Ea, deref_aux_ref, <- surjective_pairing.
+          rewrite Hobj by (try (apply Hok; left; reflexivity); eapply lookup_has; eauto). rewrite El. cbn [option_map].
+          apply (IH (Some (id, gen)) o1). intros r Hr. eapply reach_step; [apply Hok; left; reflexivity | exact El | exact Hr].
+        * assert (Ea : rename_o a (ORef id gen) = ONull) by (cbn [rename_o]; unfold a, live; rewrite El; reflexivity).
+          rewrite Ea, deref_aux_nonref by reflexivity. cbn. right; reflexivity.
+      + rewrite (deref_aux_nonref m (S fuel) last o Er), (deref_aux_nonref m' (S fuel)) by (apply rename_o_nonref; exact Er). auto.
+  Qed.
+
+  Lemma dereference_sim_o o : okr o ->
+    qres (option_map snd (dereference m o)) (option_map snd (dereference m' (rename_o a o))) /\
+    (forall o', option_map snd (dereference m o) = Some o' -> okr o' /\ is_ref o' = false).
+  Proof.
+    intro Hok. unfold dereference. pose proof (deref_sim_o (N.to_nat DEREF_LIMIT) None o Hok) as H.
+    cbn [option_map] in H. destruct (deref_aux m (N.to_nat DEREF_LIMIT) None o) as [[l o1]|]; cbn [option_map snd].
+    - destruct H as [E K]. rewrite E. cbn [option_map snd qres]. split; [reflexivity|]. intros o' Ho; inversion Ho; subst; exact K.
+    - split; [exact H | discriminate].
+  Qed.
+
+  Lemma get_object_sim_o id : reach tr m id -> has_obj m id ->
+    qres (get_object m id) (get_object m' (rho id)) /\
+    (forall o, get_object m id = Some o -> okr o /\ is_ref o = false).
+  Proof.
+    intros Hr Hh. unfold get_object. rewrite Hobj by assumption. destruct (has_lookup m id Hh) as [o El]. rewrite El. cbn [option_map].
+    apply dereference_sim_o. intros r Hin. eapply reach_step; eauto.
+  Qed.
+
+  Lemma get_dictionary_sim_o id : reach tr m id -> has_obj m id ->
+    get_dictionary m' (rho id) = option_map (rename_dict_o a) (get_dictionary m id) /\
+    (forall d, get_dictionary m id = Some d -> okr (ODict d)).
+  Proof.
+    intros Hr Hh. unfold get_dictionary. destruct (get_object_sim_o id Hr Hh) as [E K].
+    destruct (get_object m id) as [o|]; cbn [qres] in E.
+    - rewrite E. destruct (K o eq_refl) as [Ko Kr].
+      destruct o; try discriminate; cbn [rename_o option_map]; try (split; [reflexivity | discriminate]).
+      split; [reflexivity|]. intros d0 H; inversion H; subst. exact Ko.
+    - destruct E as [-> | ->]; cbn [option_map]; (split; [reflexivity | discriminate]).
+  Qed.
+
+  Lemma get_deref_sim_o d k : okr (ODict d) ->
+    qres (get_deref m d k) (get_deref m' (rename_dict_o a d) k) /\
+    (forall o, get_deref m d k = Some o -> okr o /\ is_ref o = false).
+  Proof.
+    intro Hok. unfold get_deref. rewrite dict_get_rename_o. destruct (dict_get d k) as [v|] eqn:E; cbn [option_map].
+    - apply dereference_sim_o. eapply okr_dict_get; eauto.
+    - split; [left; reflexivity | discriminate].
+  Qed.
+
+  Lemma node_type_sim_o id : reach tr m id -> has_obj m id -> node_type m' (rho id) = node_type m id.
+  Proof.
+    intros Hr Hh. unfold node_type. destruct (get_dictionary_sim_o id Hr Hh) as [E _]. rewrite E.
+    destruct (get_dictionary m id) as [d|]; cbn [option_map]; [|reflexivity]. rewrite get_type_rename_o. reflexivity.
+  Qed.
+
+  Lemma kids_of_sim_o id : reach tr m id -> has_obj m id ->
+    kids_of m' (rho id) = map (rename_o a) (kids_of m id) /\ Forall okr (kids_of m id).
+  Proof.
+    intros Hr Hh. unfold kids_of. destruct (get_dictionary_sim_o id Hr Hh) as [E K]. rewrite E.
+    destruct (get_dictionary m id) as [d|]; cbn [option_map]; [|split; [reflexivity | constructor]].
+    destruct (get_deref_sim_o d K_Kids (K d eq_refl)) as [E2 K2].
+    destruct (get_deref m d K_Kids) as [o|]; cbn [qres] in E2.
+    - rewrite E2. destruct (K2 o eq_refl) as [Ko Kr].
+      destruct o; try discriminate; cbn [rename_o]; try (split; [reflexivity | constructor]).
+      split; [reflexivity|]. apply okr_arr. exact Ko.
+    - destruct E2 as [-> | ->]; (split; [reflexivity | constructor]).
+  Qed.
+
+  Definition ren_pop_o (p : obj * list obj * list (list obj)) : obj * list obj * list (list obj) :=
+    let '(k, rest, st) := p in (rename_o a k, map (rename_o a) rest, map (map (rename_o a)) st).
+
+  Lemma pop_sim_o : forall st kids,
+    pop_nonempty (map (rename_o a) kids) (map (map (rename_o a)) st) = option_map ren_pop_o (pop_nonempty kids st).
+  Proof.
+    induction st as [|s st IH]; intros [|k rest]; cbn [pop_nonempty map option_map ren_pop_o]; try reflexivity. apply IH.
+  Qed.
+
+  Lemma push_rest_sim_o rest st :
+    push_rest (map (rename_o a) rest) (map (map (rename_o a)) st) = map (map (rename_o a)) (push_rest rest st).
+  Proof. destruct rest; reflexivity. Qed.
+
+  Lemma iter_sim_o : forall limit kids st,
+    Forall okr kids -> Forall (Forall okr) st ->
+    iter limit m' (map (rename_o a) kids) (map (map (rename_o a)) st) = map rho (iter limit m kids st).
+  Proof.
+    induction limit as [|l IH]; intros kids st Hk Hs; [reflexivity|].
+    rewrite !iter_S, pop_sim_o. destruct (pop_nonempty kids st) as [[[k rest] st']|] eqn:E; cbn [option_map ren_pop_o]; [|reflexivity].
+    destruct (pop_ok _ _ _ _ _ _ _ Hk Hs E) as [Ok [Orest Ost]].
+    destruct (is_ref k) eqn:Er.
+    - destruct k; try discriminate.
+      assert (Hr : reach tr m (id, gen)) by (apply Ok; left; reflexivity).
+      cbn [rename_o]. unfold a at 1, live. destruct (lookup m (id, gen)) as [o1|] eqn:El.
+      + assert (Hh : has_obj m (id, gen)) by (eapply lookup_has; eauto).
+        unfold ref_obj. rewrite <- surjective_pairing.
+        rewrite (node_type_sim_o _ Hr Hh). destruct (node_type m (id, gen)).
+        * cbn [map]. f_equal. apply IH; assumption.
+        * rewrite map_length. destruct (N.of_nat (length st') <? PAGE_TREE_DEPTH_LIMIT)%N; [|apply IH; assumption].
+          destruct (kids_of_sim_o _ Hr Hh) as [Ek Okids]. rewrite Ek, push_rest_sim_o. apply IH; [exact Okids | apply push_rest_ok; assumption].
+        * apply IH; assumption.
+      + rewrite (node_type_dangling m _ El). apply IH; assumption.
+    - destruct k; try discriminate; cbn [rename_o]; apply IH; assumption.
+  Qed.
+End SimO.
+
+(* page order is preserved by a renaming of the live ids that writes dangling references as null *)
+Theorem page_iter_sim_o (d d' : doc) (rho : oid -> oid) :
+  d_trailer d' = rename_dict_o (live (d_objects d) rho) (d_trailer d) ->
+  (forall id, reach (d_trailer d) (d_objects d) id -> has_obj (d_objects d) id ->
+              lookup (d_objects d') (rho id) = option_map (rename_o (live (d_objects d) rho)) (lookup (d_objects d) id)) ->
+  length (d_objects d') = length (d_objects d) ->
+  page_iter d' = map rho (page_iter d).
+Proof.
+  intros Htr Hobj Hlen. unfold page_iter, catalog. rewrite Htr, dict_get_rename_o.
+  destruct (dict_get (d_trailer d) K_Root) as [o|] eqn:Eroot; cbn [option_map]; [|reflexivity].
+  destruct (is_ref o) eqn:Er; [|destruct o; try discriminate; reflexivity].
+  destruct o; try discriminate.
+  assert (Hr : reach (d_trailer d) (d_objects d) (id, gen)).
+  { apply reach_root. eapply dict_get_refs; [exact Eroot | left; reflexivity]. }
+  cbn [rename_o]. unfold live at 1. destruct (lookup (d_objects d) (id, gen)) as [o1|] eqn:El.
+  2:{ unfold get_dictionary, get_object. rewrite El. reflexivity. }
+  assert (Hh : has_obj (d_objects d) (id, gen)) by (eapply lookup_has; eauto).
+  unfold ref_obj. rewrite <- surjective_pairing.
+  destruct (get_dictionary_sim_o _ _ _ _ Hobj _ Hr Hh) as [E K]. rewrite E.
+  destruct (get_dictionary (d_objects d) (id, gen)) as [cat|]; cbn [option_map]; [|reflexivity].
+  rewrite dict_get_rename_o. destruct (dict_get cat K_Pages) as [p|] eqn:Ep; cbn [option_map]; [|reflexivity].
+  destruct (is_ref p) eqn:Erp; [|destruct p; try discriminate; reflexivity].
+  destruct p; try discriminate.
+  assert (Hr2 : reach (d_trailer d) (d_objects d) (id0, gen0)).
+  { eapply (okr_dict_get _ _ cat K_Pages); [apply K; reflexivity | exact Ep | left; reflexivity]. }
+  cbn [rename_o]. unfold live at 1. destruct (lookup (d_objects d) (id0, gen0)) as [o2|] eqn:El2.
+  2:{ rewrite (kids_of_dangling _ _ El2), iter_nil. reflexivity. }
+  assert (Hh2 : has_obj (d_objects d) (id0, gen0)) by (eapply lookup_has; eauto).
+  unfold ref_obj. rewrite <- surjective_pairing.
+  destruct (kids_of_sim_o _ _ _ _ Hobj _ Hr2 Hh2) as [Ek Okids]. rewrite Ek, Hlen.
+  apply (iter_sim_o _ _ _ _ Hobj (length (d_objects d)) (kids_of (d_objects d) (id0, gen0)) []); [exact Okids | constructor].
+Qed.
